@@ -20,6 +20,8 @@ CONSTANTS Proc,          \* command processes
           MaxTime, MaxPacks, MaxCmds,
           Concurrent,    \* FALSE: at most one command runs at a time
           AllowInstant,  \* prune may run with instant-delete
+          AppendOnly,    \* the repository is marked append-only
+          AllowDamage,   \* index files may get lost (to be rebuilt by repair-index)
           AllowCrash,    \* a running command may stop between any two of its steps
           AllowEarly,    \* ... and with early-delete-index (documented as unsafe, excluded by C03)
           TickInPrune,   \* FALSE: assumption A2 - no time passes while a prune runs
@@ -104,6 +106,7 @@ BSnap(p) ==
 
 Forget(p, s) ==
   /\ CanStart(p)
+  /\ ~AppendOnly
   /\ s \in DOMAIN snaps
   /\ snaps' = Drop(snaps, s)
   /\ ncmd' = ncmd + 1
@@ -115,6 +118,7 @@ Forget(p, s) ==
 
 PStart(p, instant, early) ==
   /\ CanStart(p)
+  /\ ~AppendOnly
   /\ instant => AllowInstant
   /\ early => (instant /\ AllowEarly)
   /\ loc' = [loc EXCEPT ![p] = [pc |-> "p_index", instant |-> instant, early |-> early, iv |-> {}, ifiles |-> {}, used |-> {},
@@ -136,8 +140,12 @@ PReadSnaps(p) ==
      ELSE loc' = [loc EXCEPT ![p] = Idle]
   /\ UNCHANGED <<packs, idx, snaps, now, nextp, nexti, ncmd, hist>>
 
-\* entries as the planner sees them: a pack listed both unmarked and marked counts as unmarked
-Norm(iv) == {e \in iv : ~e.mark \/ ~\E f \in iv : ~f.mark /\ f.p = e.p}
+\* entries as the planner sees them: one entry per pack (duplicate listings are dropped), and a
+\* pack listed both unmarked and marked counts as unmarked
+Norm(iv) ==
+  LET cand(q) == IF \E e \in iv : e.p = q /\ ~e.mark THEN {e \in iv : e.p = q /\ ~e.mark}
+                 ELSE {e \in iv : e.p = q}
+  IN {CHOOSE e \in cand(q) : TRUE : q \in {x.p : x \in iv}}
 
 \* list packs, take the timestamp, decide.  des designates, for every used blob, the entry
 \* that keeps providing it.
@@ -240,6 +248,62 @@ PRmPack(p) ==
   /\ UNCHANGED <<idx, snaps, now, nextp, nexti, ncmd, hist>>
 
 -----------------------------------------------------------------------------
+(* repair-index: rebuild index information from the pack files themselves *)
+
+RStart(p, readAll) ==
+  /\ CanStart(p)
+  /\ ~AppendOnly
+  /\ loc' = [loc EXCEPT ![p] = [pc |-> "r_scan", readAll |-> readAll, reread |-> {}, changed |-> {}]]
+  /\ ncmd' = ncmd + 1
+  /\ hist' = Append(hist, <<"repair_index", readAll>>)
+  /\ UNCHANGED <<packs, idx, snaps, now, nextp, nexti>>
+
+\* list packs and read all index files; decide which packs need their trailer re-read and which
+\* index files change (they list a missing pack, a pack already listed before, or - read-all - any pack)
+RScan(p) ==
+  /\ loc[p].pc = "r_scan"
+  /\ LET listed  == {e.p : e \in P!Entries}
+         present == DOMAIN packs
+         bad(i)  == \E e \in idx[i] : e.p \notin present \/ loc[p].readAll
+     IN loc' = [loc EXCEPT ![p].pc = "r_write",
+                           ![p].reread = IF loc[p].readAll THEN present ELSE present \ listed,
+                           ![p].changed = {i \in DOMAIN idx : bad(i)}]
+  /\ UNCHANGED <<packs, idx, snaps, now, nextp, nexti, ncmd, hist>>
+
+\* index the re-read packs (their true content, unmarked) first ...
+RWrite(p) ==
+  /\ loc[p].pc = "r_write"
+  /\ LET ents == {[p |-> q, blobs |-> packs[q], mark |-> FALSE, t |-> now] : q \in loc[p].reread \cap DOMAIN packs}
+     IN /\ idx' = IF ents = {} THEN idx ELSE Put(idx, nexti, ents)
+        /\ nexti' = nexti + 1
+  /\ loc' = [loc EXCEPT ![p].pc = "r_replace"]
+  /\ UNCHANGED <<packs, snaps, now, nextp, ncmd, hist>>
+
+\* ... then replace every changed index file by its still valid entries
+RReplace(p) ==
+  /\ loc[p].pc = "r_replace"
+  /\ IF loc[p].changed = {}
+     THEN /\ loc' = [loc EXCEPT ![p] = [pc |-> "idle", done |-> "repair_index"]]
+          /\ UNCHANGED <<idx, nexti>>
+     ELSE \E i \in loc[p].changed :
+            LET keepents == IF i \in DOMAIN idx
+                            THEN {e \in idx[i] : e.p \in DOMAIN packs /\ ~loc[p].readAll} ELSE {}
+                without  == IF i \in DOMAIN idx THEN Drop(idx, i) ELSE idx
+            IN /\ idx' = IF keepents = {} THEN without ELSE Put(without, nexti, keepents)
+               /\ nexti' = nexti + 1
+               /\ loc' = [loc EXCEPT ![p].changed = @ \ {i}]
+  /\ UNCHANGED <<packs, snaps, now, nextp, ncmd, hist>>
+
+\* an index file disappears (damage; not a step of the library)
+LoseIndex ==
+  /\ AllowDamage
+  /\ Running = {}
+  /\ \E i \in DOMAIN idx : idx' = Drop(idx, i)
+  /\ hist' = Append(hist, <<"lose_index">>)
+  /\ loc' = [p \in Proc |-> Idle]      \* forget "done" markers
+  /\ UNCHANGED <<packs, snaps, now, nextp, nexti, ncmd>>
+
+-----------------------------------------------------------------------------
 Crash(p) ==
   /\ AllowCrash
   /\ loc[p].pc # "idle"
@@ -261,12 +325,15 @@ Step(p) ==
   \/ \E i, e \in BOOLEAN : PStart(p, i, e)
   \/ PReadIndex(p) \/ PReadSnaps(p) \/ PDecide(p) \/ PRmUnref(p) \/ PRmIdxEarly(p) \/ PRepack(p)
   \/ PWriteIdx(p) \/ PRmIdx(p) \/ PRmPack(p)
+  \/ \E ra \in BOOLEAN : RStart(p, ra)
+  \/ RScan(p) \/ RWrite(p) \/ RReplace(p)
 
 NoHist(A) == A /\ hist' = hist
 
 Next == \/ \E p \in Proc : Step(p)
         \/ \E p \in Proc : Crash(p)
         \/ Tick
+        \/ LoseIndex
 
 Spec == Init /\ [][Next]_vars
 
@@ -286,4 +353,20 @@ AllRecoverable == P!AllRecoverable
 BroughtBack == \A p \in Proc : ("done" \in DOMAIN loc[p] /\ Running = {}) => P!NotBroughtBack = {}
 
 NoDangling == P!Dangling = {}
+
+\* C08: what the packs hold can always be re-derived: after a completed repair-index every blob of
+\* every present pack is indexed again, so every snapshot whose blobs are physically there is readable
+\* (packs known only as blob-less entries marked for deletion - former unreferenced packs - are
+\* garbage by design and stay so)
+Held == UNION {packs[q] : q \in {x \in DOMAIN packs : ~\E e \in P!Entries : e.p = x /\ e.mark /\ e.blobs = {}}}
+Rebuilt == \A p \in Proc :
+  ("done" \in DOMAIN loc[p] /\ loc[p].done = "repair_index" /\ Running = {})
+     => \A s \in DOMAIN snaps : snaps[s] \subseteq Held => P!Recoverable(s)
+\* without damage repair-index never makes anything unreadable, also when interrupted
+\* (checked as AllReadable in the instances without LoseIndex)
+
+\* C15: in an append-only repository no stored snapshot, index or pack file ever disappears
+NoRemoval == [][AppendOnly => /\ DOMAIN packs \subseteq DOMAIN packs'
+                              /\ DOMAIN idx \subseteq DOMAIN idx'
+                              /\ DOMAIN snaps \subseteq DOMAIN snaps']_vars
 =============================================================================
